@@ -327,6 +327,12 @@ def build(tier="quick", seed=0):
                 pack.add(Obligation(name, lambda tier, name=name, eng=eng, expr=expr: prove_paths(name, lambda: run_selector(eng, expr), lambda p: falsy(p.value), witness_of(expr, "interp" if eng == "Selector" else "compiled")), replay=replay_req(True), functions=fu,
                                     mode="field names that coincide with attribute names of the engines' own objects x comparison operators x both engines"))
 
+    # a missing field as a MEMBER of a set or as a key of a dictionary display (compiled engine; the interpreted one has no such displays): the display can be built, the test is false
+    for expr in ("5 in {r.missing, 7}", "r.n in {r.missing: 1}", "r.s in {r.missing}", "{r.missing: 1} == {2: 1}"):
+        name = f"C08.member[CompiledSelector, {expr}]"
+        pack.add(Obligation(name, lambda tier, name=name, expr=expr: prove_paths(name, lambda: run_selector("CompiledSelector", expr), lambda p: falsy(p.value), witness_of(expr, "compiled")), replay=replay_req(True), functions=fu,
+                            mode="set / dict displays holding the missing field (representative)"))
+
     pack.add(Obligation("C08.canary", run_canary, kind="canary"))
 
     # ---- engine vs CPython: the same expressions evaluated concretely by pyvc and natively by the real code
